@@ -105,7 +105,7 @@ CHECKS = {
         "error value, come not before t and within a bound, emit one error pulse, leave in-time answers intact (reference "
         "data) and every master must finish afterwards. WaitTimer checked cycle-exactly. Enumeration of fault instants on "
         "fixed scenarios, sampling elsewhere.",
-   note="Known findings: crossbars ignore timeout_cycles (C11-F1/F1b/F1c), accepted-but-unanswered AXI requests never time out "
+   note="Known findings: crossbars ignore timeout_cycles (C11-F1/F1b/F1c), W before AW under a timeout (C11-F3), accepted-but-unanswered AXI requests never time out "
         "(C11-F2). Slaves answering later than the timeout are outside the property's fault model (only the expiry cycle).",
    tech="deterministic simulation with slave-silence fault injection enumerated over every cycle, bounded-termination oracle"),
  "C12": dict(cat="exploration", ref="DESIGN.md 5.C12",
